@@ -225,6 +225,7 @@ impl<'a> Reader<'a> {
             }
             match self.graph.file(self.ids.fileids[fileid]).input {
                 None => {
+                    unique_bid = None;
                     obsolete = true;
                 }
                 Some(bid) => {
